@@ -276,6 +276,34 @@ func wgs2Case(r *gal.Rng) (interface{}, []expE, string) {
 	return &s, exps, cell
 }
 
+// wgoCase: one WGO object: group objects (nested by value, in a slice) followed by fields with ordinary rules; the
+// ordinary clauses come first, in field order, the group clauses last
+func wgoCase(r *gal.Rng) (interface{}, []expE, string) {
+	var s WGO
+	var groups, exps []expE
+	pn := randWG(r)
+	s.N = pn.wg()
+	if pn != (wgPattern{}) {
+		groups = append(groups, groupExps(pn, "WGO.N")...)
+	}
+	nl := r.Range(0, 3)
+	for k := 0; k < nl; k++ {
+		p := randWG(r)
+		s.L = append(s.L, p.wg())
+		groups = append(groups, groupExps(p, fmt.Sprintf("WGO.L[%d]", k))...)
+	}
+	s.S = r.Pick([]string{"", "ab", "abc", "abcd"})
+	if len(s.S) > 2 {
+		exps = append(exps, expE{"C", "WGO.S", "M7"})
+	}
+	s.I = r.Range(0, 6)
+	if s.I > 3 {
+		exps = append(exps, expE{"C", "WGO.I", "M8"})
+	}
+	cell := fmt.Sprintf("then-ordinary:l%d:ord%d:grp%d", nl, len(exps), len(groups))
+	return &s, append(exps, groups...), cell
+}
+
 // wgsCase: one WGS object (WG objects in a slice, a map, nested by value and by pointer, and its own either group)
 func wgsCase(r *gal.Rng) (interface{}, []expE, string) {
 	var s WGS
